@@ -12,6 +12,11 @@ BASE = "cd /repo && /venv/bin/python -m pytest -ra -q -p no:cacheprovider --time
 
 # id -> (category, technique, text, note, design_ref)
 T = {
+ "C14": ("exploration",
+         "exhaustive enumeration of complete finite domains on the real tokenizer and parser: all 2231 named references (with/without ';') x 13 followers x 6 contexts x 2 routes; every numeric value 0..0x110000 x 6 spellings; reverse direction over code points x output encodings; oracle = 40-line reference decoder over the stdlib table",
+         "The named-reference table and the numeric range are finite, so every entry is executed: each name in each context (data, RCDATA, three attribute quotings) followed by each class of next character, through HTMLTokenizer and through parseFragment; every numeric value in decimal/x/X with and without ';'. The reverse clause serializes every code point as text and attribute value with an output encoding and parses it back.",
+         "the reference decoder and html.entities.html5 / the cp1252 codec (stdlib) are trusted; quick tier runs the non-data contexts of numeric references and the astral reverse direction on a stated partition (thorough: complete)",
+         "6/C14"),
  "C02": ("model_checking",
          "explicit-state product BFS: real HTMLTokenizer (+ real input stream) x reference tokenizer written from the WHATWG text; state key = suspended implementation state (obtained by a source that raises instead of signalling EOF) + suspended reference state; every transition runs the real tokenizer to EOF and compares the full token list; one-step bisimulation check of the key",
          "Six character/keyword alphabets (tags+attributes, comments, DOCTYPE, RCDATA/RAWTEXT/script/PLAINTEXT with 8 start-state x last-start-tag configurations, character references in data/RCDATA/three attribute contexts, CDATA allowed/not) are explored breadth-first from the empty prefix and from seed prefixes up to the stated depth, modulo state equivalence. Every reachable (state x next letter) combination inside the bound is executed on the implementation and compared with the reference.",
